@@ -6,6 +6,7 @@ mod c26;
 mod c27;
 mod c24;
 mod c44;
+mod c25;
 
 use serde_json::{json, Value};
 use std::future::Future;
@@ -53,8 +54,9 @@ fn main() {
         "c27" => c27::main(),
         "c24" => c24::main(),
         "c44" => c44::main(),
+        "c25" => c25::main(),
         _ => {
-            eprintln!("usage: vfiles <c26|c27|c24|c44> [options]");
+            eprintln!("usage: vfiles <c26|c27|c24|c44|c25> [options]");
             std::process::exit(2);
         }
     }
